@@ -1,0 +1,182 @@
+//! Verification-only re-exports. Compiled only with `RUSTFLAGS="--cfg rateslib_verif"`.
+//!
+//! Nothing in this module changes behaviour: every item forwards to, or reads from, an
+//! existing crate-private item so that an external checking harness can drive it.
+
+use crate::calendars::{Cal, NamedCal, UnionCal};
+use crate::curves::interpolation::utils::index_left;
+use crate::curves::{CurveDF, CurveInterpolation, Nodes};
+use crate::dual::{Dual, Dual2, Number, NumberArray2};
+use crate::fx::rates::{Ccy, FXRate, FXRates};
+use crate::json::json_py::DeserializedObj;
+use crate::json::JSON;
+use crate::splines::{PPSpline, PPSplineDual, PPSplineDual2, PPSplineF64};
+use chrono::NaiveDateTime;
+
+pub use crate::curves::curve_py::verif::{VerifCurve, VerifInterp};
+
+// ---- curves -------------------------------------------------------------------------------
+
+/// Forward to the crate-private bisection `index_left` on `f64` lists.
+pub fn index_left_f64(list_input: &[f64], value: &f64, left_count: Option<usize>) -> usize {
+    index_left(list_input, value, left_count)
+}
+
+/// Forward to the crate-private bisection `index_left` on `i64` lists (as curves use it).
+pub fn index_left_i64(list_input: &[i64], value: &i64, left_count: Option<usize>) -> usize {
+    index_left(list_input, value, left_count)
+}
+
+/// Read the (sorted) nodes of a `CurveDF`.
+pub fn curvedf_nodes<T: CurveInterpolation, U: crate::calendars::DateRoll>(
+    c: &CurveDF<T, U>,
+) -> Nodes {
+    Nodes::from(c.nodes.clone())
+}
+
+// ---- fx -----------------------------------------------------------------------------------
+
+pub fn ccy_name(c: &Ccy) -> String {
+    c.name.to_string()
+}
+
+/// (lhs, rhs, rate, settlement) of an `FXRate`.
+pub fn fxrate_parts(r: &FXRate) -> (String, String, Number, Option<NaiveDateTime>) {
+    (
+        r.pair.0.name.to_string(),
+        r.pair.1.name.to_string(),
+        r.rate.clone(),
+        r.settlement,
+    )
+}
+
+pub fn fxrates_fx_rates(f: &FXRates) -> Vec<FXRate> {
+    f.fx_rates.clone()
+}
+
+pub fn fxrates_currencies(f: &FXRates) -> Vec<String> {
+    f.currencies.iter().map(|c| c.name.to_string()).collect()
+}
+
+pub fn fxrates_fx_array(f: &FXRates) -> NumberArray2 {
+    f.fx_array.clone()
+}
+
+// ---- calendars ----------------------------------------------------------------------------
+
+pub fn cal_parts(c: &Cal) -> (Vec<NaiveDateTime>, Vec<u8>) {
+    let mut wm: Vec<u8> = c
+        .week_mask
+        .iter()
+        .map(|w| w.num_days_from_monday() as u8)
+        .collect();
+    wm.sort();
+    (c.holidays.iter().cloned().collect(), wm)
+}
+
+pub fn unioncal_parts(c: &UnionCal) -> (Vec<Cal>, Option<Vec<Cal>>) {
+    (c.calendars.clone(), c.settlement_calendars.clone())
+}
+
+pub fn namedcal_parts(c: &NamedCal) -> (String, UnionCal) {
+    (c.name.clone(), c.union_cal.clone())
+}
+
+// ---- splines ------------------------------------------------------------------------------
+
+pub fn ppspline_f64_wrap(inner: PPSpline<f64>) -> PPSplineF64 {
+    PPSplineF64 { inner }
+}
+pub fn ppspline_dual_wrap(inner: PPSpline<Dual>) -> PPSplineDual {
+    PPSplineDual { inner }
+}
+pub fn ppspline_dual2_wrap(inner: PPSpline<Dual2>) -> PPSplineDual2 {
+    PPSplineDual2 { inner }
+}
+pub fn ppspline_f64_inner(s: &PPSplineF64) -> &PPSpline<f64> {
+    &s.inner
+}
+pub fn ppspline_dual_inner(s: &PPSplineDual) -> &PPSpline<Dual> {
+    &s.inner
+}
+pub fn ppspline_dual2_inner(s: &PPSplineDual2) -> &PPSpline<Dual2> {
+    &s.inner
+}
+
+// ---- tagged JSON entry point --------------------------------------------------------------
+
+/// Public mirror of the crate-private `DeserializedObj`.
+#[derive(Clone)]
+pub enum VerifObj {
+    Dual(Dual),
+    Dual2(Dual2),
+    Cal(Cal),
+    UnionCal(UnionCal),
+    NamedCal(NamedCal),
+    FXRates(FXRates),
+    Curve(VerifCurve),
+    PPSplineF64(PPSplineF64),
+    PPSplineDual(PPSplineDual),
+    PPSplineDual2(PPSplineDual2),
+}
+
+impl VerifObj {
+    pub fn tag(&self) -> &'static str {
+        match self {
+            VerifObj::Dual(_) => "Dual",
+            VerifObj::Dual2(_) => "Dual2",
+            VerifObj::Cal(_) => "Cal",
+            VerifObj::UnionCal(_) => "UnionCal",
+            VerifObj::NamedCal(_) => "NamedCal",
+            VerifObj::FXRates(_) => "FXRates",
+            VerifObj::Curve(_) => "Curve",
+            VerifObj::PPSplineF64(_) => "PPSplineF64",
+            VerifObj::PPSplineDual(_) => "PPSplineDual",
+            VerifObj::PPSplineDual2(_) => "PPSplineDual2",
+        }
+    }
+}
+
+fn into_private(o: VerifObj) -> DeserializedObj {
+    match o {
+        VerifObj::Dual(v) => DeserializedObj::Dual(v),
+        VerifObj::Dual2(v) => DeserializedObj::Dual2(v),
+        VerifObj::Cal(v) => DeserializedObj::Cal(v),
+        VerifObj::UnionCal(v) => DeserializedObj::UnionCal(v),
+        VerifObj::NamedCal(v) => DeserializedObj::NamedCal(v),
+        VerifObj::FXRates(v) => DeserializedObj::FXRates(v),
+        VerifObj::Curve(v) => DeserializedObj::Curve(v.0),
+        VerifObj::PPSplineF64(v) => DeserializedObj::PPSplineF64(v),
+        VerifObj::PPSplineDual(v) => DeserializedObj::PPSplineDual(v),
+        VerifObj::PPSplineDual2(v) => DeserializedObj::PPSplineDual2(v),
+    }
+}
+
+fn from_private(o: DeserializedObj) -> VerifObj {
+    match o {
+        DeserializedObj::Dual(v) => VerifObj::Dual(v),
+        DeserializedObj::Dual2(v) => VerifObj::Dual2(v),
+        DeserializedObj::Cal(v) => VerifObj::Cal(v),
+        DeserializedObj::UnionCal(v) => VerifObj::UnionCal(v),
+        DeserializedObj::NamedCal(v) => VerifObj::NamedCal(v),
+        DeserializedObj::FXRates(v) => VerifObj::FXRates(v),
+        DeserializedObj::Curve(v) => VerifObj::Curve(VerifCurve(v)),
+        DeserializedObj::PPSplineF64(v) => VerifObj::PPSplineF64(v),
+        DeserializedObj::PPSplineDual(v) => VerifObj::PPSplineDual(v),
+        DeserializedObj::PPSplineDual2(v) => VerifObj::PPSplineDual2(v),
+    }
+}
+
+/// `DeserializedObj::<tag>(obj).to_json()` — what every Python `to_json` method produces.
+pub fn tagged_to_json(obj: &VerifObj) -> Result<String, String> {
+    into_private(obj.clone())
+        .to_json()
+        .map_err(|e| e.to_string())
+}
+
+/// `DeserializedObj::from_json(json)` — what the Python `from_json` function runs.
+pub fn tagged_from_json(json: &str) -> Result<VerifObj, String> {
+    DeserializedObj::from_json(json)
+        .map(from_private)
+        .map_err(|e| e.to_string())
+}
